@@ -21,20 +21,20 @@ const cmdPath = "github.com/folbricht/desync/cmd/desync"
 
 // Ctx is the loaded program plus the obligations collected for the property being decided.
 type Ctx struct {
-	Repo   string
-	Tier   string
-	Config string
+	Repo       string
+	Tier       string
+	Config     string
 	ConfigName string
-	Fset   *token.FileSet
-	Pkgs   []*packages.Package
-	Lib    *packages.Package
-	Cmd    *packages.Package
-	Prog   *ssa.Program
-	LibSSA *ssa.Package
-	CmdSSA *ssa.Package
-	Funcs  []*ssa.Function // every function, method and closure of the two packages
-	byKey  map[string]*ssa.Function
-	nFiles int
+	Fset       *token.FileSet
+	Pkgs       []*packages.Package
+	Lib        *packages.Package
+	Cmd        *packages.Package
+	Prog       *ssa.Program
+	LibSSA     *ssa.Package
+	CmdSSA     *ssa.Package
+	Funcs      []*ssa.Function // every function, method and closure of the two packages
+	byKey      map[string]*ssa.Function
+	nFiles     int
 
 	obs     []Obligation
 	curRule string
